@@ -75,7 +75,7 @@ def check_op1d(case):
     P = sim.problem1d(case, model_desc=md)
     r = [np.array(x, dtype=float) for x in P.disc.rhs(P.field)]
     if not all(np.all(np.isfinite(x)) for x in r):
-        raise Skip("inadmissible_reconstruction")
+        sim.nonfinite_operator(case["num"])
     neq = len(r)
     vol = P.dxf                                    # from the faces, not from mesh.vol()
     xc = 0.5 * (P.xf[1:] + P.xf[:-1])
@@ -186,7 +186,7 @@ def check_op2d(case):
     r = P.disc.rhs(P.field)
     comps = [np.asarray(r[0], dtype=float), np.asarray(r[1][0], dtype=float), np.asarray(r[1][1], dtype=float), np.asarray(r[2], dtype=float)]
     if not all(np.all(np.isfinite(x)) for x in comps):
-        raise Skip("inadmissible_reconstruction")
+        sim.nonfinite_operator(case["num"])
     nx, ny, dx, dy = P.nx, P.ny, P.dx, P.dy
     fl = P.disc.flux
     fcomps = [np.asarray(fl[0], dtype=float), np.asarray(fl[1][0], dtype=float), np.asarray(fl[1][1], dtype=float), np.asarray(fl[2], dtype=float)]
@@ -275,7 +275,7 @@ def check_solve1d(case):
         raise Skip("burgers data identically zero")
     r0 = P.disc.rhs(P.field)
     if not all(np.all(np.isfinite(x)) for x in r0):
-        raise Skip("inadmissible_reconstruction")
+        sim.nonfinite_operator(case["num"])
     implicit = cases.is_implicit(case["integ"])
     solver = cases.build_integrator(case["integ"], P.mesh, P.disc)
     vol = P.dxf
